@@ -41,20 +41,33 @@ Fixpoint count_wpwm (l : list op) : Z :=
   end.
 Definition attempted_last_resort (ops : list op) : bool := 2 <=? count_wpwm ops.
 
+(* the escape "the last-resort write failed" is only available AFTER the hand-back was tried: when the fan has a
+   mode and the original one was not manual, the operation log must show the mode write *)
+Fixpoint count_wmode (l : list op) : Z :=
+  match l with
+  | [] => 0
+  | OpWMode _ :: r => 1 + count_wmode r
+  | _ :: r => count_wmode r
+  end.
+Definition mode_tried_if_needed (sup : bool) (orig : dev) (ops : list op) : bool :=
+  negb (sup && negb (mode orig =? manual)) || (1 <=? count_wmode ops).
+
 Definition holdsb (c : case) : bool :=
   match c with
   | CRestore b ex orig cur p o_dev o_ops =>
       safeb (mode_supported b ex) orig o_dev
-      || (attempted_last_resort o_ops && match p_v2 p with WOk => false | _ => true end)
+      || (attempted_last_resort o_ops && mode_tried_if_needed (mode_supported b ex) orig o_ops
+          && match p_v2 p with WOk => false | _ => true end)
   | CTry _ _ _ _ _ _ _ _ _ _ => true
   end.
 
 (* the observer is the stated property, on the implementation's observation *)
 Lemma holdsb_spec b ex orig cur p o_dev o_ops :
   holdsb (CRestore b ex orig cur p o_dev o_ops) = true <->
-  safe (mode_supported b ex) orig o_dev \/ (attempted_last_resort o_ops = true /\ p_v2 p <> WOk).
+  safe (mode_supported b ex) orig o_dev
+  \/ ((attempted_last_resort o_ops = true /\ mode_tried_if_needed (mode_supported b ex) orig o_ops = true) /\ p_v2 p <> WOk).
 Proof.
-  cbn [holdsb]. rewrite orb_true_iff, andb_true_iff, safeb_spec.
+  cbn [holdsb]. rewrite orb_true_iff, !andb_true_iff, safeb_spec.
   destruct (p_v2 p); split; intros [H|[H1 H2]]; auto; try discriminate; try congruence;
     right; split; auto; discriminate.
 Qed.
